@@ -222,13 +222,20 @@ class SpawnProcess(multiprocessing.context.SpawnProcess):
                 error = OSError(exitcode, msg)
                 error.__cause__ = exc
 
-        self._logger_queue_.put(None)
         self._result_and_error_.close()
         self._result_and_error_ = None
         if error is not None:
             self._future_.set_exception(error)
         else:
             self._future_.set_result(result)
+
+        # The child's log records travel through its own queue feeder thread, which is
+        # flushed only when the child exits, and nothing orders its writes against ours.
+        # Hence the end marker may follow only once the child is gone; sent any earlier it
+        # can overtake records that are still on their way: those would never be handled,
+        # and a child with more left to flush than the pipe holds could never exit.
+        multiprocessing.connection.wait([self.sentinel])
+        self._logger_queue_.put(None)
 
     @staticmethod
     def _finalize(logger_thread, q):
